@@ -696,8 +696,12 @@ def check_C09(ctx):
                 "# comments, column header, [Typedef] stanzas, extra tags, extra columns, repeated rows, the 3 accepted gene-file headers, alternative tag order) x 3 record orders, "
                 "checks that its writer and declarative reader agree, and emits them; the harness renders them verbatim and compares from_standard and from_standard_transitive "
                 "with the projection the spec derives, and with the Builder and binary paths on the same facts; non-trivial = a noisy preset")
-    out = tlc(ctx, "mc/MC_Jax.cfg", "mc/MC_Jax.tla", workers=14)["out"]
-    s = hv(ctx, "replay-jax", prop="C09", **{"in": out})
+    outs = [tlc(ctx, "mc/MC_Jax.cfg", "mc/MC_Jax.tla", workers=14)["out"],
+            # every combination of the eight kinds of noise and the three gene-file headers (768 presets) on six representative ontologies
+            tlc(ctx, "mc/MC_JaxLattice.cfg", "mc/MC_Jax.tla", workers=12)["out"],
+            # the cross product of the catalogues: structure (4 patterns x extra ids) x flags x records of every kind x release date x name shapes
+            tlc(ctx, "mc/MC_JaxCross.cfg" if ctx.quick else "mc/MC_JaxCrossT.cfg", "mc/MC_Jax.tla", workers=12, timeout=3000)["out"]]
+    s = hv(ctx, "replay-jax", prop="C09", **{"in": concat(ctx, outs, "c09-lines.txt")})
     ctx.traces += s.get("cases", 0)
     ctx.assumptions += ["generator stays inside the documented envelope: one header line in gene files, is_a lines carry '! comment', one name per record id, annotated terms exist, 4-digit years"]
     return finish(ctx)
